@@ -5,10 +5,12 @@
    NUMBERS. twig computes in float64; the model covers integers of magnitude <= 2^53 (vo_bound) and
    returns Unmodelled (here: None / NumUnk) outside. Go distinguishes an int (context values, integer
    literals, loop counters, results of length / range) from a float64 holding an integer (every
-   arithmetic result, abs, unary minus): toBool and isEmptyValue compare the interface value with the
-   untyped constant 0, which is an int, so a float64 zero is neither false nor empty; fmt prints a float64
-   inside a list with an exponent from 1e+06 on; same_as compares dynamic types. Model/Value.v has a single
-   VInt, so a float64 with integral value z is ENCODED as the reserved struct  VFloat z := VStruct 64 [([], VInt z)].
+   arithmetic result, abs, unary minus): toBool used to compare the interface value with the untyped
+   constant 0, an int, so that a float64 zero was truthy (repaired by 0f4c704; the model follows the
+   translator's flag evs_tobool_float_by_value); fmt prints a float64 inside a list with an exponent from
+   1e+06 on; same_as compares dynamic types. Arithmetic never yields the negative zero (plusZero, 49d3d3e).
+   Model/Value.v has a single VInt, so a float64 with integral value z is ENCODED as the reserved struct
+   VFloat z := VStruct 64 [([], VInt z)].
    VInt z is a Go int. Two more reserved struct types encode the two function values PrintNode executes:
    VCallable (the closure a macro call evaluates to) and VParentCall (what parent() returns). *)
 From Twig Require Import Base.Bytes Base.Utf8 Model.Ast Model.Value.
@@ -235,14 +237,22 @@ Fixpoint vo_fmt (v : value) : option bytes :=
   | _ => None
   end.
 
-(* ctx.ToString / toString at top level *)
-Definition vo_to_str (v : value) : option bytes :=
+(* ctx.ToString / toString at top level. A pointer prints what it points to (nothing when nil); funcs (the two
+   function encodings, opaque values) and bare macro values print nothing. *)
+Definition vo_to_str_flat (v : value) : option bytes :=
   match vo_view v with
   | KNull => Some []
   | KFloat z => Some (vo_itoa z)
   | KList _ _ | KMap _ _ => vo_fmt v
   | KBool _ | KInt _ | KStr _ => vo_fmt v
-  | _ => None
+  | KCallable _ _ _ | KParent | KMacro _ _ => Some []
+  | KStructV _ _ | KPtr _ | KOther => match v with VOpaque _ => Some [] | _ => None end
+  end.
+Fixpoint vo_to_str (v : value) : option bytes :=
+  match v with
+  | VPtr None => Some []
+  | VPtr (Some x) => vo_to_str x
+  | _ => vo_to_str_flat v
   end.
 
 (* ---------------------------------------------------------------- equals, contains *)
@@ -381,13 +391,13 @@ Definition vo_get_attr (obj : value) (attr : bytes) : outcome value :=
   end.
 
 (* ---------------------------------------------------------------- extension.go helpers *)
-(* isEmptyValue: value == 0 on a float64 compares with an int constant, never equal *)
+(* isEmptyValue: nil, the empty string, false, an empty list or map; a number is never empty *)
 Definition vo_is_empty (v : value) : bool :=
   match vo_view v with
   | KNull => true
   | KStr s => match s with [] => true | _ => false end
   | KBool b => negb b
-  | KInt z => (z =? 0)%Z
+  | KInt _ => false
   | KFloat _ => false
   | KList _ xs => match xs with [] => true | _ => false end
   | KMap _ kvs => match kvs with [] => true | _ => false end
